@@ -310,7 +310,7 @@ func TestCheck(t *testing.T) {
 		})
 
 		// random valid bundles
-		nRand := r.Pick(3000, 60000)
+		nRand := r.Pick(10000, 60000)
 		r.Group("random", nRand, func(i int, rng *report.Rand) {
 			o := opts
 			if r.Thorough() && i%500 == 0 {
@@ -337,7 +337,7 @@ func TestCheck(t *testing.T) {
 		})
 
 		// structure-aware mutants
-		nMut := r.Pick(20000, 600000)
+		nMut := r.Pick(80000, 600000)
 		r.Group("mutants", nMut, func(i int, rng *report.Rand) {
 			o := opts
 			o.MaxPayload = 200
